@@ -305,3 +305,47 @@ Example probe_nontrivial :
   /\ probe_outcome FreeBSD "ppid" "proc_oneshot_info" EIO EPERM true = RDenied
   /\ probe_outcome SunOS "cmdline" "proc_name_and_args" ESRCH EIO false = RZombie.   (* kill(2) cannot fail with EIO: the PID is found *)
 Proof. vm_compute. auto. Qed.
+
+(* ------------------------------------------------------------------ the cached name, through the front end *)
+(* after any history, a failing call carries exactly the name that name() last returned (None if it never returned) *)
+Theorem fe_name_carried : forall pre cache r post,
+  nth_error (fe_run cache (pre ++ ECall r :: post)) (List.length pre)
+  = Some (ORes r (last_returned cache (fe_run cache pre))).
+Proof.
+  induction pre as [|ev pre IH]; intros cache r post.
+  - reflexivity.
+  - cbn [app fe_run List.length nth_error]. destruct ev as [k c h [|]|r0]; cbn [fe_step].
+    + cbn [last_returned]. apply IH.
+    + cbn [last_returned]. apply IH.
+    + cbn [last_returned]. apply IH.
+Qed.
+
+(* in particular: right after a successful name() the carried name is the returned one, whatever came before *)
+Corollary fe_name_after_name : forall pre cache k c h r,
+  nth_error (fe_run cache (pre ++ [EName k c h true; ECall r])) (S (List.length pre))
+  = Some (ORes r (Some (fe_name k c h))).
+Proof.
+  intros pre cache k c h r.
+  replace (pre ++ [EName k c h true; ECall r]) with ((pre ++ [EName k c h true]) ++ ECall r :: []) by (rewrite <- app_assoc; reflexivity).
+  replace (S (List.length pre)) with (List.length (pre ++ [EName k c h true])) by (rewrite app_length; cbn; lia).
+  rewrite fe_name_carried. f_equal. f_equal.
+  revert cache. induction pre as [|ev pre IH]; intro cache.
+  - reflexivity.
+  - cbn [app fe_run]. destruct ev as [k0 c0 h0 [|]|r0]; cbn [fe_step last_returned]; apply IH.
+Qed.
+
+(* the returned name: the kernel name itself when it is shorter than 15 bytes; otherwise it still starts with it *)
+Lemma fe_name_short k c h : (Z.of_nat (List.length k) < 15) -> fe_name k c h = k.
+Proof. intro H. unfold fe_name. replace (15 <=? Z.of_nat (List.length k)) with false by (symmetry; apply Z.leb_gt; lia). reflexivity. Qed.
+Lemma prefixb_refl k : prefixb k k = true.
+Proof. induction k as [|b r IH]; cbn; [reflexivity|]. rewrite Z.eqb_refl. exact IH. Qed.
+Lemma fe_name_extends k c h : prefixb k (fe_name k c h) = true.
+Proof.
+  unfold fe_name. destruct ((15 <=? Z.of_nat (List.length k)) && h); [|apply prefixb_refl].
+  destruct (prefixb k (basename c)) eqn:E; [exact E | apply prefixb_refl].
+Qed.
+Example fe_name_example :
+  fe_name (bs "gnome-keyring-d") (bs "/usr/bin/gnome-keyring-daemon") true = bs "gnome-keyring-daemon"
+  /\ fe_name (bs "gnome-keyring-d") (bs "/usr/bin/python3") true = bs "gnome-keyring-d"
+  /\ fe_name (bs "bash") (bs "/bin/bash-extended") true = bs "bash".
+Proof. vm_compute. auto. Qed.
